@@ -33,6 +33,7 @@ RULE += ' Round 9: compressed files whose chunks have unequal lengths.'
 RULE += ' Round 10: part files without a complete row (zero samples: in the middle, at the end, twice in a row); n_channels_dat together with another n_channels; arrays of shape (n, 0).'
 RULE += ' Round 11: get_excerpts on 2-D and 3-D data (the same rows as for 1-D data).'
 RULE += ' Round 12: the synthetic RandomEphysReader at and around whole numbers of chunks.'
+RULE += " Round 13: derived readers' chunk grids; the last flat file growing after the reader was opened; two compressed recordings sharing a name prefix in one folder."
 EXHAUSTIVE = {'quick': True, 'thorough': True}
 EXHAUSTIVE_SCOPE = {'quick': 'n <= 25 (see rule)', 'thorough': 'n <= 40 (see rule)'}
 FLOORS = {'quick': {'evaluations': 20000, 'distinct_nontrivial': 2000,
